@@ -1,5 +1,6 @@
 import BfeVerif.Common.Proto
 import BfeVerif.C12.Model
+import BfeVerif.C12.Compose
 /-!
   C12 driver.
   op   = `b=<basic rules|none>;a=<adv rules|none>;h=<host>;p=<path|nil>;m=<method>`
@@ -31,9 +32,79 @@ def parseAdvClusters (s : String) : Option (List String) :=
   else if s == "" then some []
   else some ((s.splitOn "&").map fun r => match r.splitOn "!" with | [_, c] => c | _ => "?")
 
+/-- condition in prefix notation, tokens separated by blanks:
+    `& c c` | `| c c` | `~ c` | `t` | `p,<prim>,<hex a0>,<hex a1>,<0|1>` -/
+def parseCond : Nat → List String → Option (Cond × List String)
+  | 0, _ => none
+  | _ + 1, [] => none
+  | n + 1, tok :: rest =>
+    if tok == "t" then some (.tt, rest)
+    else if tok == "~" then (parseCond n rest).map fun (c, r) => (.not c, r)
+    else if tok == "&" || tok == "|" then
+      match parseCond n rest with
+      | some (a, r1) => match parseCond n r1 with
+        | some (b, r2) => some (if tok == "&" then .and a b else .or a b, r2)
+        | none => none
+      | none => none
+    else match tok.splitOn "," with
+      | ["p", prim, a0, a1, f] =>
+        match bytesOfHex a0, bytesOfHex a1 with
+        | some x, some y => some (.prim prim x y (f == "1"), rest)
+        | _, _ => none
+      | _ => none
+
+def parseERules (s : String) : Option (List ERule) :=
+  if s == "" then some [] else
+  (s.splitOn "@").mapM fun r =>
+    match r.splitOn "!" with
+    | [toks, c] =>
+      let ts := (toks.splitOn " ").filter (· != "")
+      match parseCond (ts.length + 1) ts with
+      | some (cond, []) => some { cond := cond, cluster := c }
+      | _ => none
+    | _ => none
+
+/-- end-to-end variant: condition values computed by the C18 model -/
+def runE (f : List String) (cS : String) (impl : String) : Ans :=
+  match parseERules cS, kv f "h", kv f "p", kv f "m", impl.splitOn ";" with
+  | some es, some h, some p, some m, [bitsF, basicF, resF] =>
+    match parseBasic (basicF.drop 6).toString with
+    | none => { model := "bad-impl", verdict := "skip" }
+    | some basic =>
+      let req : C18.Req := { host := h.toUTF8.toList, path := p.toUTF8.toList, method := m.toUTF8.toList,
+                             query := [], headers := [], cookies := [], tags := [], cip := none, vip := none }
+      let o : C18.Orc :=
+        { x := { regexOk := fun _ => true, parseIP := fun _ => none, parseTime := fun _ => none, sscanf6 := fun _ => none },
+          reMatch := fun _ _ => false, bucket := fun _ => 0 }
+      match bitsOf o req es with
+      | none => { model := "cond-not-modelled", verdict := "FAIL:cond-not-modelled", tags := ["e2e"] }
+      | some bs =>
+        let bitsS := if bs.isEmpty then "-" else String.mk (bs.map fun b => if b.cond then '1' else '0')
+        let r := lookupCluster basic (some bs)
+        let spec := specLookupE o basic.join es req
+        let wf := wfB bs && (match basic.join with | some c => c != "" | none => true)
+        let implOpt : Option (Option String) :=
+          if resF.startsWith "ok cn=" then some (some (resF.drop 6).toString)
+          else if resF == "err:nomatch cn=" || resF == "err:noproductrule cn=" then some none
+          else none
+        let verdict :=
+          if !wf then "skip"
+          else if bitsF != "bits=" ++ bitsS then "FAIL:e2e-condition-value"
+          else match implOpt with
+            | none => "FAIL:unparsable"
+            | some io => if io == spec then "ok" else "FAIL:e2e-destination"
+        let nprim := (cS.splitOn "p,").length - 1
+        { model := "bits=" ++ bitsS ++ ";" ++ basicF ++ ";" ++ renderRes r
+          verdict := verdict
+          tags := ["e2e"] ++ (if nprim ≥ 2 then ["e2e-multi-prim"] else [])
+                  ++ (if bs.any (·.cond) then ["e2e-match"] else ["e2e-nomatch"])
+                  ++ (if bs.length ≥ 2 then ["nt"] else []) }
+  | _, _, _, _, _ => { model := "bad-op", verdict := "skip" }
+
 def run (op impl : String) : Ans :=
   if impl == "err:load" then { model := "err:load", verdict := "skip", tags := ["load-error"] } else
   let f := op.splitOn ";"
+  if let some cS := kv f "c" then runE f cS impl else
   match kv f "a", impl.splitOn ";" with
   | some a, [bitsF, basicF, resF] =>
     let bitsS := (bitsF.drop 5).toString
